@@ -502,3 +502,131 @@ def fields(line):
         elif t.startswith("CRASH:"):
             d["CRASH"] = t[6:]
     return d
+
+
+# ---------------------------------------------------------------------------------------------
+# op sequences for the arena model correspondence (harness/h_arena.c vs lean/Driver/Arena.lean)
+
+def gen_ops(r, cid):
+    """One case line. The generator keeps its own picture of the arena so that the sequence stays
+    inside the protocol the theorems assume (registered slots hold null or a pointer to used bytes,
+    nothing else overwrites a slot) except for a few deliberate probes at the end of a line."""
+    n = r.choice([1, 2, 2, 3, 4, 12])
+    init = r.choice([1, 1, 2, 3, 8, 16, 64, 1024])
+    ops = ["create:%d:%d" % (n, init)]
+    if r.random() < 0.3:
+        ops.append("move:1")
+    used = [0] * n
+    kind = [r.choice("rz") for _ in range(n)]       # raw buffers (write_data) / zeroed buffers (structs)
+    slots = []                                      # registered (b, off)
+    zero_areas = []                                 # (b, off) 8 zero bytes, unregistered
+    raw_areas = []                                  # (b, off, len) pokeable bytes
+    feats = set()
+
+    def target(allow_null=True):
+        cands = [(b, o) for b in range(n) if used[b] > 0 for o in {0, used[b] - 1, r.randrange(used[b])}]
+        if not cands or (allow_null and r.random() < 0.2):
+            return "null"
+        b, o = r.choice(sorted(cands))
+        return "%d.%d" % (b, o)
+
+    def one():
+        u = r.random()
+        zb = [b for b in range(n) if kind[b] == "z"]
+        rb = [b for b in range(n) if kind[b] == "r"]
+        if u < 0.16 and rb:
+            b = r.choice(rb); l = r.choice([1, 1, 2, 3, 5, 8, 9, 17, 40])
+            raw_areas.append((b, used[b], l))
+            ops.append("w:%d:%s" % (b, bytes(r.randrange(256) for _ in range(l)).hex())); used[b] += l; feats.add("write")
+        elif u < 0.28 and zb:
+            b = r.choice(zb); l = r.choice([0, 1, 8, 8, 16, 24, 33])
+            for o in range(0, l - 7, 8):
+                zero_areas.append((b, used[b] + o))
+            ops.append("z:%d:%d" % (b, l)); used[b] += l; feats.add("zalloc")
+        elif u < 0.50 and zb:
+            b = r.choice(zb); size = r.choice([8, 16, 24, 32, 40, 13, 21])
+            offs, o = [], r.choice([0, 0, 8, 3, 5])
+            while o + 8 <= size and len(offs) < 5:
+                if r.random() < 0.7:
+                    offs.append(o)
+                o += r.choice([8, 8, 9, 16])
+            for o in offs:
+                slots.append((b, used[b] + o))
+            ops.append("s:%d:%d:%s" % (b, size, ".".join(map(str, offs)) if offs else "-")); used[b] += size; feats.add("struct")
+            if any(o % 8 for o in offs):
+                feats.add("unaligned-slot")
+        elif u < 0.56 and zero_areas:
+            b, o = zero_areas.pop(r.randrange(len(zero_areas)))
+            slots.append((b, o)); ops.append("r:%d:%d" % (b, o)); feats.add("reloc")
+        elif u < 0.78 and slots:
+            b, o = r.choice(slots)
+            ops.append("sp:%d.%d:%s" % (b, o, target())); feats.add("setptr")
+        elif u < 0.88 and rb:
+            b = r.choice(rb)
+            slots.append((b, used[b])); ops.append("p:%d:%s" % (b, target())); used[b] += 8; feats.add("ptr")
+            if (used[b] - 8) % 8:
+                feats.add("unaligned-slot")
+        elif u < 0.93 and raw_areas:
+            b, o, l = r.choice(raw_areas)
+            k = r.randint(1, l); s = r.randint(0, l - k)
+            ops.append("k:%d.%d:%s" % (b, o + s, bytes(r.randrange(256) for _ in range(k)).hex())); feats.add("poke")
+        elif slots:
+            b, o = r.choice(slots)
+            ops.append("ref:%d.%d" % (b, o)); feats.add("ref")
+
+    nops = r.randint(3, 40)
+    for i in range(nops):
+        one()
+        if r.random() < 0.08:
+            ops.append("save")
+    for b, o in r.sample(slots, min(len(slots), 4)):
+        ops.append("ref:%d.%d" % (b, o))
+    ops.append("save")
+    nrel = len(slots)
+    hdr = 6; tbl = hdr + 12 * n; bod = tbl + sum(used); end = bod + 8 * nrel
+    body_off = [tbl + sum(used[:b]) for b in range(n)]
+    # loads: intact, prefixes at and around every boundary, single-field corruptions
+    ops.append("load:full:%d:%d" % (r.randrange(1 << 30), r.choice([0, 1, 2, 3, 7, 64])))
+    cuts = {0, 1, 3, 4, 5, hdr, hdr + 1, tbl - 1, tbl, tbl + 1, bod - 1, bod, bod + 1, end - 9, end - 8, end - 1} | \
+           {bo for bo in body_off} | {bo + 1 for bo in body_off} | {bod + 8 * k for k in range(nrel)} | {bod + 8 * k + r.randint(1, 7) for k in range(nrel)}
+    cuts = sorted(c for c in cuts if 0 <= c < end)
+    for c in r.sample(cuts, min(len(cuts), 6)):
+        ops.append("load:p%d:%d:%d" % (c, r.randrange(1 << 30), r.choice([0, 1, 5])))
+    for _ in range(r.randint(1, 5)):
+        u = r.random()
+        if u < 0.15:
+            off = r.randrange(6); val = bytes([r.choice([0, 1, 15, 16, 17, 20, 21, 22, 0x41, 0x59, 255])])
+            feats.add("corrupt-header")
+        elif u < 0.45:
+            b = r.randrange(n)
+            if r.random() < 0.3:
+                off = hdr + 12 * b; val = struct.pack("<Q", r.choice([0, 1, 2 ** 63, tbl, end])); feats.add("corrupt-table-offset")
+            else:
+                off = hdr + 12 * b + 8
+                val = struct.pack("<I", r.choice([0, 1, 7, 8, used[b] + 1, max(0, used[b] - 1), used[b] + 8, max(0, used[b] - 8), 2 ** 31, 2 ** 32 - 1, 3 * 10 ** 9]))
+                feats.add("corrupt-table-size")
+        elif u < 0.8 and nrel:
+            k = r.randrange(nrel); b, o = slots[k]
+            nb = r.choice([b, r.randrange(n), n, n + 1, 255, 2 ** 32 - 1])
+            no = r.choice([o, max(0, used[b] - 8), max(0, used[b] - 7), used[b], used[b] + 1, 2 ** 32 - 1, 0, 1])
+            off = bod + 8 * k; val = struct.pack("<II", nb, no); feats.add("corrupt-reloc-entry")
+        elif slots:
+            b, o = r.choice(slots)
+            tb = r.choice([r.randrange(n), n, 16, 2 ** 32 - 1])
+            to = r.choice([0, used[tb] if tb < n else 0, (used[tb] if tb < n else 0) + 1, 2 ** 32 - 1])
+            off = body_off[b] + o; val = struct.pack("<II", tb, to); feats.add("corrupt-slot-ref")
+        else:
+            continue
+        ops.append("load:w%d.%s:%d:%d" % (off, val.hex(), r.randrange(1 << 30), r.choice([0, 3])))
+    # deliberate probes outside the protocol (each ends the usefulness of the line)
+    u = r.random()
+    if u < 0.08 and slots and any(used):
+        b, o = r.choice(slots); tb = r.choice([x for x in range(n) if used[x] > 0])
+        ops += ["sp:%d.%d:%d.%d" % (b, o, tb, used[tb]), "ref:%d.%d" % (b, o), "save"]; feats.add("probe-end-pointer")
+    elif u < 0.12 and slots:
+        b, o = r.choice(slots); tb = r.randrange(n)
+        ops += ["sp:%d.%d:%d.%d" % (b, o, tb, used[tb] + 1 + r.randrange(3))]; feats.add("probe-ref-beyond-used")
+    elif u < 0.16:
+        b = r.randrange(n)
+        ops += ["w:%d:aabbcc" % b, "z:%d:8" % b, "save"]; feats.add("probe-zalloc-after-raw-growth")
+    return cid + " " + " ".join(ops), feats
